@@ -3,6 +3,31 @@ from core import Unit as U
 ORACLE = ["sha256 compression function reached through hash_ctx->fn_sha256_compression (verif_compress: logging oracle, havocs s[0..7])"]
 SHA = ["secp256k1_sha256_write", "secp256k1_sha256_finalize"]
 HMAC = ["secp256k1_hmac_sha256_initialize", "secp256k1_hmac_sha256_write", "secp256k1_hmac_sha256_finalize"]
+
+# ---- loop contract of the output loop of secp256k1_rfc6979_hmac_sha256_generate (ghost names: contracts/hash_spec.h, L4) ----
+def _le(x): return "__CPROVER_loop_entry(%s)" % x
+def _keep(*xs): return " && ".join("%s == %s" % (x, _le(x)) for x in xs)
+_DONE = "(%s - outlen)" % _le("outlen")
+_F0 = _le("g_hfin_n")
+RFC_GEN_LOOP = {
+    "assigns": "outlen, out, __CPROVER_object_upto(rng->v, 32), __CPROVER_object_whole(out), g_hfin_n, g_hk_n, g_hk_len, g_hk_byte, "
+               "g_hw_hit, g_hw_byte, g_hf_len, g_hf_cur, g_hf_prev, g_hf_prev2, g_hf_last, g_mc_calls",
+    "invariants":
+        # progress: whole 32-byte rounds done so far, one HMAC computation per round
+        "outlen <= %s && (outlen == 0 || %s %% 32 == 0) && out == %s + %s" % (_le("outlen"), _DONE, _le("out"), _DONE) +
+        " && g_hfin_n >= 0 && (unsigned long)g_hfin_n == (unsigned long)%s + (%s + 31) / 32" % (_F0, _DONE) +
+        # V is the output of the most recent HMAC computation
+        " && (g_hfin_n > %s ? rng->v[g_hdk] == g_hf_last : (%s))" % (_F0, _keep("rng->v[g_hdk]", "rng->v[g_hwpos & 31]", "g_hf_last")) +
+        # output of the computation preceding the watched one
+        " && ((g_hwe > %s && g_hwe == g_hfin_n) ? g_hf_prev == g_hf_last : ((g_hwe <= %s || g_hwe > g_hfin_n) ==> %s))" % (_F0, _F0, _keep("g_hf_prev")) +
+        # the watched computation: not run by this loop (yet) - log untouched; run - key K, message = previous V (32 bytes), output copied out
+        " && ((g_hwe < %s || g_hwe >= g_hfin_n) ? (%s)" % (_F0, _keep("g_hk_n", "g_hk_len", "g_hk_byte", "g_hw_hit", "g_hw_byte", "g_hf_len", "g_hf_cur")) +
+        " : (g_hk_n == %s + 1 && g_hk_len == 32 && g_hk_byte == rng->k[g_hkk] && g_hf_len == 32" % _le("g_hk_n") +
+        " && (g_hwpos < 32 ? (g_hw_hit == %s + 1 && (g_hwe == %s ? g_hw_byte == %s : (g_hwpos == g_hdk ==> g_hw_byte == g_hf_prev)))" % (_le("g_hw_hit"), _F0, _le("rng->v[g_hwpos & 31]")) +
+        " : (%s))" % _keep("g_hw_hit", "g_hw_byte") +
+        " && ((verif_oi < %s && verif_oi / 32 == (unsigned long)g_hwe - (unsigned long)%s && verif_oi %% 32 == g_hdk) ==> %s[verif_oi] == g_hf_cur)))" % (_le("outlen"), _F0, _le("out")),
+    "decreases": "outlen",
+}
 UNITS = [
     U("C05.sha256_write", ["C05"], "harness/C05/hash_write.c", "h_write", assumed=ORACLE,
       functions=["secp256k1_sha256_write"], timeout=600, min_obl=50, unwind=130, replay=False,
@@ -42,7 +67,7 @@ UNITS = [
     U("C05.sha256_initialize_tagged", ["C05"], "harness/C05/hash_tagged.c", "h_tagged_init", replace=SHA,
       functions=["secp256k1_sha256_initialize_tagged", "secp256k1_sha256_initialize"], timeout=300, min_obl=50, unwind=66, replay=False,
       note="taglen symbolic (<= 2^40)"),
-    U("C05.tagged_sha256", ["C05"], "harness/C05/hash_tagged.c", "h_tagged_sha256", replace=SHA,
+    U("C05.tagged_sha256", ["C05", "C20"], "harness/C05/hash_tagged.c", "h_tagged_sha256", replace=SHA,
       functions=["secp256k1_tagged_sha256", "secp256k1_sha256_initialize_tagged", "secp256k1_sha256_initialize", "secp256k1_sha256_clear"],
       timeout=300, min_obl=50, unwind=66, replay=False,
       note="API-level, NULL/non-NULL of every pointer argument, taglen and msglen symbolic (<= 2^40)"),
@@ -52,10 +77,18 @@ UNITS = [
     U("C05.rfc6979_generate_b96", ["C05"], "harness/C05/hash_rfc6979.c", "h_rfc_gen", replace=HMAC, bounded="outlen<=96 (every call site in src/ passes 32)",
       functions=["secp256k1_rfc6979_hmac_sha256_generate"], timeout=600, min_obl=50, unwind=66, unwindset=["secp256k1_rfc6979_hmac_sha256_generate.0:4"], replay=False,
       note="round loop unwound 3 times + unwinding assertion; retry symbolic"),
-    U("C05.rfc6979_generate", ["C05"], "harness/C05/hash_rfc6979.c", "h_rfc_gen", replace=HMAC, loops=True, defs=["RFC_MAXOUT=((size_t)1<<36)"],
-      functions=["secp256k1_rfc6979_hmac_sha256_generate"], timeout=900, min_obl=50, unwind=66, replay=False, tier="thorough",
-      closed_by="loop contract (hooks/C05_hash_rfc6979_loop.diff): base, step, decreases",
-      note="any outlen (<= 2^36), retry symbolic; needs the loop-contract hook in src/hash_impl.h; thorough until the hook is in /repo"),
+    U("C05.rfc6979_generate", ["C05"], "harness/C05/hash_rfc6979.c", "h_rfc_gen", replace=HMAC, defs=["RFC_MAXOUT=((size_t)1<<34)"],
+      loop_contracts={"secp256k1_rfc6979_hmac_sha256_generate": {"while (outlen > 0)": RFC_GEN_LOOP}},
+      functions=["secp256k1_rfc6979_hmac_sha256_generate"], timeout=900, min_obl=50, unwind=66, replay=False,
+      closed_by="loop contract on the output loop (engine-supplied --loop-contracts-file, no /repo edit): base, step, decreases",
+      note="any outlen (<= 2^34 bytes: the ghost epoch counter is an int), retry symbolic"),
     U("C05.rfc6979_finalize", ["C05"], "harness/C05/hash_rfc6979.c", "h_rfc_finalize",
       functions=["secp256k1_rfc6979_hmac_sha256_finalize"], timeout=120, min_obl=1, unwind=66, replay=False),
+    U("C05.sha256_vectors", ["C05"], "harness/C05/hash_compress.c", "h_sha_vectors", bounded="concrete vectors",
+      functions=["secp256k1_sha256_transform_impl", "secp256k1_sha256_transform", "secp256k1_sha256_initialize", "secp256k1_sha256_write", "secp256k1_sha256_finalize"],
+      timeout=600, min_obl=4, unwind=66, replay=True,
+      note="TEST, not a proof: NIST vectors 'abc', '', 448-bit message through the real code by symex of concrete inputs; pins IV, K table, rotations, byte order"),
+    U("C05.sha256_compress_fips", ["C05"], "harness/C05/hash_compress.c", "h_compress_fips", solver="cadical", tier="thorough",
+      functions=["secp256k1_sha256_transform_impl"], timeout=1500, min_obl=8, unwind=66, replay=True,
+      note="all 2^768 (state, block) inputs against a FIPS 180-4 spec with a 16-word rolling schedule; see report for the measured outcome"),
 ]
